@@ -89,6 +89,12 @@ func runC13(c *Ctx) error {
 		case k == 0:
 			st = w.plainState(int(target.st.Height()), target.st.Previous()) // not a suffrage state
 			kind = "not-suffrage-state"
+		case k == 2 && ti > 0: // a later block whose state claims suffrage height 0 and an unrelated predecessor
+			st = w.sufState(int(target.st.Height()), 0, valuehash.RandomSHA256())
+			if c.Bool() {
+				st = w.sufState(int(target.st.Height()), 0, target.st.Previous())
+			}
+			kind = "suffrage-height-zero-claim"
 		case k == 1 && ti > 0: // suffrage height not +1 although previous hash and heights fit
 			st = w.sufState(int(target.st.Height()), target.sufH+1+c.Intn(2), target.st.Previous())
 			kind = "suffrage-height-gap"
